@@ -18,14 +18,16 @@ from ..ctx import stable_hash
 
 ID = "C14"
 LEVEL = "fault_enumeration"
-TIERS = {"quick": {"shards": 16, "budget_s": 120, "streams": 2, "max_blocks": 12, "schedules_per_point": 3, "line_runs": 6, "sigint": 4, "systematic_pipelines": 1, "systematic_deviations": 1},
-         "thorough": {"shards": 16, "budget_s": 900, "streams": 14, "max_blocks": 40, "schedules_per_point": 12, "line_runs": 300, "sigint": 64, "systematic_pipelines": 4, "systematic_deviations": 2}}
+TIERS = {"quick": {"shards": 16, "budget_s": 120, "streams": 2, "max_blocks": 12, "schedules_per_point": 3, "line_runs": 6, "sigint": 4, "systematic_pipelines": 1, "systematic_deviations": 1, "fault_runs": 8},
+         "thorough": {"shards": 16, "budget_s": 900, "streams": 14, "max_blocks": 40, "schedules_per_point": 12, "line_runs": 300, "sigint": 64, "systematic_pipelines": 4, "systematic_deviations": 2, "fault_runs": 400}}
 RULE = ("Fault enumeration of the stop point: for each generated stream of n blocks the scheduled main thread calls stop_all() "
         "after k source reads have started, for EVERY k in 0..n+2 (before the first read, between any two reads, after the "
         "last, after the stream ended), each at several scheduler steps inside that interval, and the interleaving of all "
         "remaining steps is explored by the seeded strategies of C12 (incl. timeout firings and line-level pre-emption); "
         "pipelines with and without the StreamSaverWorker, joiner and recording observers; systematic core: for tiny pipelines "
-        "every stop point x EVERY schedule with <= k deviations from the default policy (k=1 quick, k=2 thorough).  Oracle: every thread DONE (no "
+        "every stop point x EVERY schedule with <= k deviations from the default policy (k=1 quick, k=2 thorough); fault "
+        "injection: the source raises OSError at a chosen read and the stop arrives afterwards (every thread must still end, "
+        "observers hold a prefix of the detections of what was read).  Oracle: every thread DONE (no "
         "deadlock / non-termination verdict); source reads started after the stop marker was enqueued <= 1 (the read in "
         "flight); every observer's detections == split() of exactly the blocks that were read, as if the stream had ended "
         "there; saved stream is a well-formed wav holding exactly those blocks; joiner file consistent with the same "
@@ -55,6 +57,18 @@ def check_run(ctx, case, data, res, tmpdir):
     h = res.holder
     rate, width, channels = case["rate"], case["width"], case["channels"]
     bps = width * channels
+    if case.get("fault_at_read") is not None and getattr(h.get("reader"), "vf_fault_raised", False):
+        # the source failed before the stop: the tokenizer thread is gone and did not flush; what remains to be decided is
+        # that the stop still ends every thread (checked above) and that nobody saw anything that was never detected
+        ctx.count("stops_after_an_injected_source_fault")
+        read = b"".join(b for b in res.inner_blocks if b is not None)
+        full = P.split_reference(read, case)
+        for o in res.observers:
+            if o.vf_kind == "rec":
+                if o.vf_log != full[: len(o.vf_log)]:
+                    ctx.violation("observer-detections-not-a-prefix-after-source-fault", dict(w, observer=o.vf_name, got=[g[:3] for g in o.vf_log][:10]))
+                    return False
+        return True
     if "reads_started_at_stop" not in h:
         ctx.violation("harness-never-saw-the-stop-marker", w)
         return False
@@ -361,6 +375,22 @@ def run_shard(ctx):
             check_sigint(ctx, sigint_child(ctx, rng, tmpdir, i), i)
         systematic(ctx, conf, tmpdir)
         enumerate_stops(ctx, conf, tmpdir)
+        rng = ctx.rng("faults")
+        for i in range(conf["fault_runs"]):
+            # a source that raises in the middle of the stream, then the stop: every thread must still end
+            case = P.random_pipeline_case(rng, max_windows=14, want_stop=True)
+            nb = len(case["v"])
+            case["fault_at_read"] = rng.randint(1, max(1, nb))
+            case["stop"] = {"after_reads": rng.randint(case["fault_at_read"], nb + 2), "extra_steps": rng.choice((0, 2, 5))}
+            if "rec" not in case["observers"]:
+                case["observers"] = list(case["observers"]) + ["rec"]
+                case["observer_timeouts"] = list(case["observer_timeouts"]) + [0.2]
+            built = AC.build_audio(case)
+            if built is None:
+                continue
+            one(ctx, case, built[0], tmpdir)
+            if ctx.out_of_time():
+                break
         rng = ctx.rng("lines")
         for i in range(conf["line_runs"]):
             case = P.random_pipeline_case(rng, max_windows=14, want_stop=True, line_mode=True)
@@ -395,7 +425,7 @@ def inconclusive(merged, tier):
     c = merged["counters"]
     need = ["scheduled_runs", "stop_points_enumerated", "streams_with_every_stop_point_covered", "stops_before_stream_end",
             "stops_with_a_read_in_flight", "observer_logs_checked", "saved_streams_checked", "joiner_files_checked",
-            "line_mode_runs", "sigint_children_checked", "timeouts_fired", "systematic_schedules", "systematic_pipelines_fully_enumerated"]
+            "line_mode_runs", "sigint_children_checked", "timeouts_fired", "systematic_schedules", "systematic_pipelines_fully_enumerated", "stops_after_an_injected_source_fault"]
     out = [f"monitor never observed {k}" for k in need if c.get(k, 0) == 0]
     if c.get("inconclusive_runs", 0) > max(3, c.get("scheduled_runs", 0) // 50):
         out.append(f"{c['inconclusive_runs']} runs hit a step/wall cap or the sigint driver's watchdog")
